@@ -306,7 +306,10 @@ func (c *Ctx) c12Recovery() {
 			}
 			if p := c.savedBefore(call.(ssa.Instruction), assume, user, success); p != nil {
 				// the function may hand the user back to a caller that saves: accept only if this function is not an entry
-				if !c.isEntry(fn) && len(c.Callers(fn)) > 0 && c.callersSaveBeforeSuccess(fn, uid) {
+				// (only when what is reached unsaved is the return itself: a session or a
+				// factor change written here has happened before any caller runs)
+				_, handsBack := p[len(p)-1].(*ssa.Return)
+				if handsBack && !c.isEntry(fn) && len(c.Callers(fn)) > 0 && c.callersSaveBeforeSuccess(fn, uid) {
 					r.Ok("C12.recovery-consume", name, "Save≺success", pos, "saved by every caller before a success outcome")
 				} else {
 					r.Bad("C12.recovery-consume", name, "Save≺success", pos, "after a recovery code matched, a success outcome is reachable without the shrunken list being saved: the code works again", c.P.DescribePath(p)...)
@@ -729,5 +732,26 @@ func (c *Ctx) c12Limits() {
 			r.Check(okH && noPlain, "C12.regen", name, "PutRecoveryCodes(Encode(bcrypt(codes)))", posf(c, pc), "stores hashes of the fresh codes", "regenerated codes are not stored as BCryptRecoveryCodes output")
 		}
 		c.mustSaveAfterPut("C12.save", rg, nil)
+	}
+}
+
+// issuanceGated: in the packages that log a user in on a one-time value, the
+// write of session[uid] is edge-dominated by a recognised credential check and
+// the identity written is the checked one. A comparison the credential table
+// does not know (a hand-written loop over the bytes, say) is no check.
+func (c *Ctx) issuanceGated(rule string, scope func(*ssa.Function) bool) {
+	r := c.R
+	for _, s := range c.Issuances() {
+		if !scope(s.Fn) || !s.Op.Const {
+			continue
+		}
+		fn := FuncName(s.Fn)
+		creds := c.CredsAt(s.Op.Call)
+		if len(creds) == 0 {
+			r.Bad(rule, fn, "PutSession(uid)", posf(c, s.Op.Call), "the session is issued without a dominating check of the one-time value from the credential table: a value that was never issued can succeed", factList(c, s.Op.Call)...)
+			continue
+		}
+		r.Ok(rule, fn, "PutSession(uid)", posf(c, s.Op.Call), "dominated by "+credKinds(creds))
+		c.bindIssuance(s, creds)
 	}
 }
